@@ -180,7 +180,7 @@ def C19(rep):
     _validate(rep, "RouteTrace", out, "route-inproc-tlc", batch_records=1500)
     os.unlink(out)
     # ... and seeded random trees with 3 loggers over all 6 levels
-    out, _ = _drive(rep, ["route-inproc", "--random", _n(rep, 3000, 40000), "--seed", rep.seed, "--group", 100],
+    out, _ = _drive(rep, ["route-inproc", "--random", _n(rep, 6000, 40000), "--seed", rep.seed, "--group", 100],
                     "route-inproc-random")
     _validate(rep, "RouteTrace", out, "route-inproc-random", batch_records=1500)
     os.unlink(out)
@@ -190,7 +190,7 @@ def C19(rep):
     _validate(rep, "PipeTrace", out, "e2e-route")
     os.unlink(out)
     # pipeline: free-running emitters, shutdown / guard drop at a seeded moment
-    out, st = _drive(rep, ["e2e", "--mode", "stress", "--configs", _n(rep, 40, 400), "--seed", rep.seed + 17, "--jobs", 4,
+    out, st = _drive(rep, ["e2e", "--mode", "stress", "--configs", _n(rep, 100, 600), "--seed", rep.seed + 17, "--jobs", 4,
                            "--tmp", _tmp()], "e2e-shutdown")
     _validate(rep, "PipeTrace", out, "e2e-shutdown")
     os.unlink(out)
